@@ -203,6 +203,15 @@ def k5_queries(num, tier, only=None):
                     for rlen in rlens:
                         for p in (18, 99):
                             qs.append(plan.k5_query(cont, 1, n, p, rmethod=rm, rlen=rlen, timeout=to))
+    elif num == 17:
+        # the purge-first rule of ut_map / ut_set also binds their range forms (clause 17006 in rel_clauses.hpp)
+        for cont in ('utmap', 'utset'):
+            if only and cont not in only:
+                continue
+            for rm in plan.RMETHODS:
+                rlen = 1 if (rm == 'insert_range' and tier == 'quick') else 2
+                for p in (17, 99):
+                    qs.append(plan.k5_query(cont, 1, 2, p, rmethod=rm, rlen=rlen, timeout=to))
     elif num == 15:
         if not only or 'rr' in only:
             for n in ([2, 3] if tier == 'quick' else [2, 3, 4]):
